@@ -11,6 +11,8 @@ let val_of s = val_of_sexp (parse_sexp s)
 
 let rs f r = match r with OK a -> f a | Err -> "ERR" | Panic -> "PANIC"
 
+let sval v = String.map (fun c -> if c = ' ' then '_' else c) (string_of_val v)
+
 (* ---- C01 ---- *)
 (* top-level mutation chain that rebuilds value v of type t starting from the default *)
 let mut_chain (t : ty) (v : val0) : op list =
@@ -159,8 +161,6 @@ let rec ctree_of (t : ty) (v : val0) : ctree =
   | TContainer fs, VCont vs -> CNodes (List.map2 ctree_of fs vs)
   | _ -> CFresh
 
-let sval v = String.map (fun c -> if c = ' ' then '_' else c) (string_of_val v)
-
 let c09 tys vals prevs =
   let t = ty_of tys and v = val_of vals in
   let c = if prevs = "-" then CFresh else ctree_of t (val_of prevs) in
@@ -297,6 +297,60 @@ let c20 zh tys data =
   Printf.sprintf "res=%s malloc=%s bound=%s" (match r with OK _ -> "OK" | Err -> "ERR" | Panic -> "PANIC")
     (hn a) (hn (N.add (N.mul (N.mul (n_of_int 2) (perbyte t)) len) (foot t)))
 
+
+(* ---- extras: Uint8*HTR, Encode/Decode, Sum, Skip, dynamic hex ---- *)
+let u8htr h zh kind data limit =
+  let bs = bytes_of_hex data in
+  let spec_chunks = chunkify bs in
+  if kind = "vec" then
+    Printf.sprintf "root=%s spec_root=%s" (rs hb (uint8_vector_htr h zh bs))
+      (hb (merkleize_spec h spec_chunks (N.div (N.add (n_of_int (List.length bs)) (n_of_int 31)) (n_of_int 32))))
+  else
+    let lim = nh limit in
+    Printf.sprintf "root=%s spec_root=%s" (rs hb (uint8_list_htr h zh bs lim))
+      (hb (mix_in_length h (merkleize_spec h spec_chunks (N.div (N.add lim (n_of_int 31)) (n_of_int 32)))
+             (n_of_int (List.length bs))))
+
+let encdec tys vals =
+  let t = ty_of tys and v = val_of vals in
+  let enc = basic_encode t v in
+  let dec = match enc with OK bs -> rs sval (basic_decode t bs) | _ -> "ERR" in
+  let short = match enc with
+    | OK (_ :: r) -> rs sval (basic_decode t r) | _ -> "ERR" in
+  let long = match enc with
+    | OK bs -> rs sval (basic_decode t (bs @ [byte_of_int 0])) | _ -> "ERR" in
+  Printf.sprintf "enc=%s dec=%s short=%s long=%s spec_enc=%s spec_dec=%s" (rs hb enc) dec short long
+    (hb (spec_ser t v)) (sval v)
+
+let decraw tys data = rs (fun v -> "OK " ^ sval v) (basic_decode (ty_of tys) (bytes_of_hex data))
+
+let csum lens =
+  hn (codec_sum (if lens = "-" then [] else List.map nh (String.split_on_char ',' lens)))
+
+(* a sequence of reads (r<k>) and skips (s<k>) on a one-shot reader *)
+let c13_seq data reqs =
+  let bs = bytes_of_hex data in
+  let (st0, d0) = new_reader bs (n_of_int (List.length bs)) in
+  let st = ref st0 and d = ref d0 in
+  let out = ref [] in
+  let ok = ref true in
+  List.iter (fun q ->
+    if !ok then begin
+      let k = nh (String.sub q 1 (String.length q - 1)) in
+      if q.[0] = 's' then
+        (match dr_skip !st !d k with
+         | OK (st', d') -> st := st'; d := d'; out := "s" :: !out
+         | _ -> ok := false)
+      else
+        (match dr_read !st !d k with
+         | OK ((b, st'), d') -> st := st'; d := d'; out := hb b :: !out
+         | _ -> ok := false)
+    end) (if reqs = "-" then [] else String.split_on_char ',' reqs);
+  if !ok then "OK " ^ String.concat "," (List.rev !out) else "ERR"
+
+let dynu text =
+  match dynamic_bytes_unmarshal (bytes_of_hex text) with Some bs -> "OK " ^ hb bs | None -> "ERR"
+
 let dispatch set_cfg cur_h cur_zh (op : string) (args : string list) : string =
   match op, args with
   | "c01", [cfg; t; v; route] -> set_cfg cfg; c01 !cur_h !cur_zh cfg t v route
@@ -308,6 +362,13 @@ let dispatch set_cfg cur_h cur_zh (op : string) (args : string list) : string =
   | "c09", [t; v; prev] -> c09 t v prev
   | "c10", [t; data] -> c10 t data
   | "c17", [t; v] -> set_cfg "sha"; c17 !cur_h !cur_zh t v
+  | "u8htr", [cfg; kind; data; limit] -> set_cfg cfg; u8htr !cur_h !cur_zh kind data limit
+  | "encdec", [t; v] -> encdec t v
+  | "decraw", [t; data] -> decraw t data
+  | "csum", [lens] -> csum lens
+  | "c13s", [data; reqs] -> c13_seq data reqs
+  | "dynu", [text] -> dynu text
+  | "bstr", [bs] -> hb (bytes_string (bytes_of_hex bs))
   | "c13p", [data; chunks; eof; fail; reqs] -> c13_prim data chunks eof fail reqs
   | "c13r", [kind; t; data; got] -> set_cfg "sha"; c13_read kind !cur_zh t data got
   | "c13w", [kind; t; v; budget] -> set_cfg "sha"; c13_write kind !cur_zh t v budget
